@@ -523,7 +523,8 @@ pub fn run(args: &Args, report: &mut Report) {
         match &o[0] {
             crate::c02::Outcome::Ok { failure: None, .. } => {
                 tie_parse(&[(text.clone(), level, doc)], report);
-                tie_core(&[(text, level, doc)], report);
+                tie_core(&[(text.clone(), level, doc)], report);
+                crate::doc::tie_doc(&[(text, level, doc)], report);
             }
             crate::c02::Outcome::Ok { failure: Some(f), .. } => {
                 report.oracle_failure(json!({"input": input, "what": f, "class": classify(&text)}));
@@ -676,6 +677,8 @@ pub fn run(args: &Args, report: &mut Report) {
     tie_parse(&tie_cases, report);
     // ---- (C) token-layer core ------------------------------------------------------------
     tie_core(&tie_cases, report);
+    // ---- (C') doc-parser core: recorded operation traces replayed through Doc.run ----------------
+    crate::doc::tie_doc(&tie_cases, report);
     // ---- (D) reader + lexer loop ------------------------------------------------------------
     let lex_texts: Vec<(String, LuaLanguageLevel)> = tie_cases.iter().map(|(t, l, _)| (t.clone(), *l)).collect();
     tie_reader(&mut rng, if args.thorough() { 100_000 } else { 5_000 }, &lex_texts, report);
